@@ -55,6 +55,11 @@ pub struct FaultPoint {
     /// the failing write/append leaves the first half of its buffer in the file
     #[serde(default)]
     pub partial: bool,
+    /// instead of a position: fail the n-th write/append (1-based, counted from the end of the initial
+    /// open) to a file whose name contains the string, once. Independent of how the calls of the
+    /// client and the background thread interleave.
+    #[serde(default)]
+    pub named: Option<(String, u32)>,
 }
 
 #[derive(Default, Debug, Clone)]
@@ -412,6 +417,10 @@ fn run_point_inner(p: &FaultPoint) -> Result<FaultInfo, String> {
     let mut cfg = case.cfg;
     let mut db = Some(DB::open(options_dyn(fsd.clone(), &cfg)).map_err(|e| format!("fault-free initial open failed: {e:?}"))?);
     let base = ctl.calls.load(std::sync::atomic::Ordering::SeqCst);
+    if let Some((name, n)) = &p.named {
+        *ctl.write_filter.lock().unwrap() = Some((name.clone(), *n as i64, false));
+        ctl.partial.store(p.partial, std::sync::atomic::Ordering::SeqCst);
+    }
     match p.pos {
         Some(pos) => {
             ctl.arm(base + pos, p.sticky);
@@ -680,7 +689,7 @@ pub fn worker(ctx: &WorkerCtx) -> WorkerResult {
         let counting = !*failed.borrow();
         let ch = hash_json(&case);
         // fault-free run: count and classify the calls
-        let base = FaultPoint { dircheck: false, case: case.clone(), pos: None, sticky: false, partial: false };
+        let base = FaultPoint { dircheck: false, case: case.clone(), pos: None, sticky: false, partial: false, named: None };
         let info = match guarded_point(&base) {
             PointOutcome::Ok(i) => i,
             PointOutcome::Violation(v) => {
@@ -725,7 +734,7 @@ pub fn worker(ctx: &WorkerCtx) -> WorkerResult {
                 modes.push((mix(ch, 0x77 + pos) % 2 == 0, true));
             }
             for (sticky, partial) in modes {
-                let p = FaultPoint { dircheck: false, case: case.clone(), pos: Some(pos), sticky, partial };
+                let p = FaultPoint { dircheck: false, case: case.clone(), pos: Some(pos), sticky, partial, named: None };
                 let out = guarded_point(&p);
                 let mut r = res.borrow_mut();
                 if counting {
@@ -760,6 +769,38 @@ pub fn worker(ctx: &WorkerCtx) -> WorkerResult {
                                 continue;
                             }
                         }
+                        *failed.borrow_mut() = true;
+                        *found.borrow_mut() = Some((p, v.what.clone()));
+                        return Err(TestCaseError::fail(v.what));
+                    }
+                    PointOutcome::Hung(m) => {
+                        *failed.borrow_mut() = true;
+                        *hung.borrow_mut() = true;
+                        let what = format!("a call did not return after the injected failure (it neither reported an error nor took effect): {m}");
+                        *found.borrow_mut() = Some((p, what.clone()));
+                        return Err(TestCaseError::fail(what));
+                    }
+                }
+            }
+        }
+        // the n-th write to the manifest, by name (the manifest is written by the background thread, so
+        // its calls have no stable position): failing cleanly and failing with half of the buffer written
+        for n in 1..=10u32 {
+            for partial in [false, true] {
+                let p = FaultPoint { dircheck: false, case: case.clone(), pos: None, sticky: false, partial, named: Some(("MANIFEST".into(), n)) };
+                let out = guarded_point(&p);
+                let mut r = res.borrow_mut();
+                if counting {
+                    r.evaluations += 1;
+                }
+                match out {
+                    PointOutcome::Ok(i) => {
+                        if counting && i.fired.is_some() {
+                            r.bump("failed_nth_manifest_write_by_name");
+                            r.nontrivial_hashes.push(mix(ch, 0x9000 + n as u64 * 2 + partial as u64));
+                        }
+                    }
+                    PointOutcome::Violation(v) => {
                         *failed.borrow_mut() = true;
                         *found.borrow_mut() = Some((p, v.what.clone()));
                         return Err(TestCaseError::fail(v.what));
@@ -882,7 +923,7 @@ pub fn worker_hang_only(ctx: &WorkerCtx, res: &RefCell<WorkerResult>) {
             return Ok(());
         }
         let ch = hash_json(&case);
-        let base = FaultPoint { dircheck: false, case: case.clone(), pos: None, sticky: false, partial: false };
+        let base = FaultPoint { dircheck: false, case: case.clone(), pos: None, sticky: false, partial: false, named: None };
         let info = match guarded_point(&base) {
             PointOutcome::Ok(i) => i,
             _ => return Ok(()),
@@ -896,7 +937,7 @@ pub fn worker_hang_only(ctx: &WorkerCtx, res: &RefCell<WorkerResult>) {
         while pos < n {
             // prefer write-side calls: they drive the sticky error state
             let sticky = mix(ch, pos as u64) & 1 == 1;
-            let p = FaultPoint { dircheck: false, case: case.clone(), pos: Some(pos as u64), sticky, partial: false };
+            let p = FaultPoint { dircheck: false, case: case.clone(), pos: Some(pos as u64), sticky, partial: false, named: None };
             let bg0 = crate::guard::bg_panics();
             let out = guarded_point(&p);
             let mut r = res.borrow_mut();
@@ -989,7 +1030,7 @@ pub fn worker_dircheck(ctx: &WorkerCtx, res: &RefCell<WorkerResult>) {
         }
         case.ops = ops;
         let ch = hash_json(&case);
-        let base = FaultPoint { dircheck: false, case: case.clone(), pos: None, sticky: false, partial: false };
+        let base = FaultPoint { dircheck: false, case: case.clone(), pos: None, sticky: false, partial: false, named: None };
         let info = match guarded_point(&base) {
             PointOutcome::Ok(i) => i,
             _ => return Ok(()),
@@ -1007,7 +1048,7 @@ pub fn worker_dircheck(ctx: &WorkerCtx, res: &RefCell<WorkerResult>) {
         let step = (reads.len() / per).max(1);
         let mut i = (mix(ch, 3) % step as u64) as usize;
         while i < reads.len() {
-            let p = FaultPoint { dircheck: true, case: case.clone(), pos: Some(reads[i] as u64), sticky: false, partial: false };
+            let p = FaultPoint { dircheck: true, case: case.clone(), pos: Some(reads[i] as u64), sticky: false, partial: false, named: None };
             let out = guarded_point(&p);
             let mut r = res.borrow_mut();
             r.evaluations += 1;
